@@ -93,7 +93,7 @@ def NodeOK (t : Tree) : Prop :=
   ∧ (∀ c ∈ t.children, isIdentifiable c.kind = false)
   ∧ (t.kind ≠ .list → (∀ c ∈ t.children, ∃ s, c.idShort = some s ∧ validIdentifier s = true)
       ∧ (t.children.map (·.idShort)).Nodup)
-  ∧ t.children.length ≤ 10 ^ 2000
+  ∧ (natStr t.children.length).length ≤ 2000
 
 instance (t : Tree) : Decidable (NodeOK t) := by unfold NodeOK; infer_instance
 
@@ -439,7 +439,8 @@ theorem keyOf_child {t c : Tree} {i : Nat} {s : Str} (here : Path) (hw : NodeOK 
   by_cases hl : t.kind = .list
   · simp only [stepSeg, hl, if_true, Option.some.injEq] at hs
     subst hs
-    have : validIdentifier (natStr i) = true := validIdentifier_natStr (Nat.lt_of_lt_of_le hi hw.2.2.2)
+    have hlen : t.children.length < 10 ^ 2000 := (Nat.length_toDigits_le_iff (by decide) (by decide)).1 hw.2.2.2
+    have : validIdentifier (natStr i) = true := validIdentifier_natStr (Nat.lt_trans hi hlen)
     simp [hl, mkKey, this]
   · simp only [stepSeg, hl, if_false] at hs
     rcases (hw.2.2.1 hl).1 c hmem with ⟨s', hs', hv⟩
@@ -587,5 +588,354 @@ theorem wfb_sound {root : Tree} (h : wfb root = true) : WF root := by
   intro p n hn
   have := h.2 p (mem_allPaths_of_sub p root n hn)
   simpa [hn] using this
+
+
+/-! ### update() / commit() -/
+
+/-- canonical segments from `t` down to the node at `p` as the walks record them (`None` for a missing id_short) -/
+def optSegs : Tree → Path → List (Option Str)
+  | _, [] => []
+  | t, i :: p => match t.children[i]? with
+    | none => []
+    | some c => stepSeg t i c :: optSegs c p
+
+theorem optSegs_of_segsAlong : ∀ (p : Path) (t : Tree) (segs : List Str), segsAlong t p = some segs →
+    optSegs t p = segs.map some
+  | [], _, segs, h => by simp [segsAlong] at h; subst h; rfl
+  | i :: p, t, segs, h => by
+    unfold segsAlong at h
+    cases hc : t.children[i]? with
+    | none => simp [hc] at h
+    | some c =>
+      simp only [hc] at h
+      cases hs : stepSeg t i c with
+      | none => simp [hs] at h
+      | some s =>
+        cases hr : segsAlong c p with
+        | none => simp [hs, hr] at h
+        | some r =>
+          simp only [hs, hr, Option.some.injEq] at h; subst h
+          simp [optSegs, hc, hs, optSegs_of_segsAlong p c r hr]
+
+theorem segOf_child (t : Tree) (i : Nat) (c : Tree) (here : Path) : segOf ⟨some (t, i), c, here⟩ = stepSeg t i c := rfl
+
+/-- specification of the ancestor loop of `commit()`: one call per sourced node from `t` (at `here`) down to the
+    parent of the target (at `here ++ p`), nearest first, each with the segments between it and the target -/
+def upCalls (obj : Path) : Tree → Path → Path → List Call
+  | _, _, [] => []
+  | t, here, i :: p => match t.children[i]? with
+    | none => []
+    | some c => upCalls obj c (here ++ [i]) p
+        ++ (if t.source ≠ [] then [⟨t.source, here, obj, optSegs t (i :: p)⟩] else [])
+
+theorem commitUp_chainUp (obj : Path) : ∀ (p : Path) (par : Option (Tree × Nat)) (t : Tree) (here : Path)
+    (acc : List Link) (n : Tree), sub t p = some n →
+    ∃ l up, chainUp par t here p acc = some (l :: up) ∧ l.node = n ∧ l.path = here ++ p ∧
+      commitUp obj up [segOf l] = upCalls obj t here p ++ commitUp obj acc (segOf ⟨par, t, here⟩ :: optSegs t p)
+  | [], par, t, here, acc, n, hn => by
+    simp [sub] at hn; subst hn
+    exact ⟨⟨par, t, here⟩, acc, rfl, rfl, by simp, by simp [upCalls, optSegs]⟩
+  | i :: p, par, t, here, acc, n, hn => by
+    cases hc : t.children[i]? with
+    | none => rw [sub_cons_none hc] at hn; cases hn
+    | some c =>
+      rw [sub_cons hc] at hn
+      rcases commitUp_chainUp obj p (some (t, i)) c (here ++ [i]) (⟨par, t, here⟩ :: acc) n hn with ⟨l, up, hch, hl, hp, hcu⟩
+      refine ⟨l, up, by simp [chainUp, hc, hch], hl, by simp [hp], ?_⟩
+      rw [hcu, segOf_child]
+      simp [upCalls, hc, optSegs, commitUp, List.append_assoc]
+
+/-- specification of `find_source()`: the nearest sourced node, searching from the target (at `here ++ p`) up to `t` -/
+def nearestCall (obj : Path) : Option (Tree × Nat) → Tree → Path → Path → Option Call
+  | par, t, here, [] => if t.source ≠ [] then some ⟨t.source, here, obj, [segOf ⟨par, t, here⟩]⟩ else none
+  | par, t, here, i :: p => match t.children[i]? with
+    | none => none
+    | some c => match nearestCall obj (some (t, i)) c (here ++ [i]) p with
+      | some call => some call
+      | none => if t.source ≠ [] then some ⟨t.source, here, obj, segOf ⟨par, t, here⟩ :: optSegs t (i :: p)⟩ else none
+
+def toCall (obj : Path) (x : Link × List (Option Str)) : Call := ⟨x.1.node.source, x.1.path, obj, x.2⟩
+
+theorem findSourceUp_chainUp (obj : Path) : ∀ (p : Path) (par : Option (Tree × Nat)) (t : Tree) (here : Path)
+    (acc : List Link) (n : Tree), sub t p = some n →
+    ∃ l up, chainUp par t here p acc = some (l :: up) ∧ l.node = n ∧ l.path = here ++ p ∧
+      (findSourceUp (l :: up) []).map (toCall obj) =
+        ((nearestCall obj par t here p).or ((findSourceUp acc (segOf ⟨par, t, here⟩ :: optSegs t p)).map (toCall obj)))
+  | [], par, t, here, acc, n, hn => by
+    simp [sub] at hn; subst hn
+    refine ⟨⟨par, t, here⟩, acc, rfl, rfl, by simp, ?_⟩
+    by_cases hs : t.source = []
+    · simp [findSourceUp, nearestCall, hs, optSegs]
+    · simp [findSourceUp, nearestCall, hs, toCall]
+  | i :: p, par, t, here, acc, n, hn => by
+    cases hc : t.children[i]? with
+    | none => rw [sub_cons_none hc] at hn; cases hn
+    | some c =>
+      rw [sub_cons hc] at hn
+      rcases findSourceUp_chainUp obj p (some (t, i)) c (here ++ [i]) (⟨par, t, here⟩ :: acc) n hn with ⟨l, up, hch, hl, hp, hf⟩
+      refine ⟨l, up, by simp [chainUp, hc, hch], hl, by simp [hp], ?_⟩
+      rw [hf, segOf_child]
+      cases hnc : nearestCall obj (some (t, i)) c (here ++ [i]) p with
+      | some call => simp [nearestCall, hc, hnc]
+      | none =>
+        by_cases hs : t.source = []
+        · simp [nearestCall, hc, hnc, findSourceUp, hs, optSegs]
+        · simp [nearestCall, hc, hnc, findSourceUp, hs, optSegs, toCall]
+
+/-- `c` is the call for a sourced node `d` below (or at) the node where the walk started (`here`) -/
+def IsDirectCall (t : Tree) (here : Path) (c : Call) : Prop :=
+  ∃ q d, sub t q = some d ∧ d.source ≠ [] ∧ c = ⟨d.source, here ++ q, here ++ q, []⟩
+
+mutual
+/-- the recursive walk calls exactly the sourced nodes of the subtree … -/
+theorem mem_directWalk : ∀ (t : Tree) (here : Path) (c : Call), WFSub t → (c ∈ directWalk t here ↔ IsDirectCall t here c)
+  | .node k id ids src cs, here, c, hw => by
+    have hkids : ∀ x ∈ cs, WFSub x := fun x hx => by
+      rcases List.getElem?_of_mem hx with ⟨j, hj⟩
+      exact hw.child (t := .node k id ids src cs) (by simpa [Tree.children] using hj)
+    have hL := mem_directWalkL cs here 0 c hkids
+    have hns : cs ≠ [] → isNamespace k = true := by simpa [NodeOK, Tree.children, Tree.kind] using hw.node.1
+    simp only [directWalk, List.mem_append]
+    constructor
+    · rintro (h | h)
+      · by_cases hs : src = []
+        · simp [hs] at h
+        · simp only [hs, ne_eq, not_false_eq_true, if_true, List.mem_singleton] at h
+          exact ⟨[], .node k id ids src cs, rfl, by simpa [Tree.source] using hs, by simp [h, Tree.source]⟩
+      · by_cases hk : isNamespace k = true
+        · simp only [hk, if_true] at h
+          rcases hL.1 h with ⟨j, x, q, d, hx, hd, hsrc, hc⟩
+          exact ⟨j :: q, d, by rw [sub_cons (t := .node k id ids src cs) (by simpa [Tree.children] using hx)]; exact hd,
+            hsrc, by simpa using hc⟩
+        · simp [hk] at h
+    · rintro ⟨q, d, hd, hsrc, hc⟩
+      cases q with
+      | nil =>
+        simp [sub] at hd; subst hd
+        left
+        have : src ≠ [] := by simpa [Tree.source] using hsrc
+        simp [this, hc, Tree.source]
+      | cons j q =>
+        right
+        cases hx : cs[j]? with
+        | none => rw [sub_cons_none (t := .node k id ids src cs) (by simpa [Tree.children] using hx)] at hd; cases hd
+        | some x =>
+          rw [sub_cons (t := .node k id ids src cs) (by simpa [Tree.children] using hx)] at hd
+          have hne : cs ≠ [] := by intro h; rw [h] at hx; simp at hx
+          simp only [hns hne, if_true]
+          exact hL.2 ⟨j, x, q, d, hx, hd, hsrc, by simpa using hc⟩
+theorem mem_directWalkL : ∀ (cs : List Tree) (here : Path) (k : Nat) (c : Call), (∀ x ∈ cs, WFSub x) →
+    (c ∈ directWalkL cs here k ↔ ∃ j x q d, cs[j]? = some x ∧ sub x q = some d ∧ d.source ≠ [] ∧
+      c = ⟨d.source, here ++ (k + j) :: q, here ++ (k + j) :: q, []⟩)
+  | [], here, k, c, _ => by simp [directWalkL]
+  | y :: ys, here, k, c, hw => by
+    have h1 := mem_directWalk y (here ++ [k]) c (hw y (by simp))
+    have h2 := mem_directWalkL ys here (k + 1) c (fun x hx => hw x (by simp [hx]))
+    simp only [directWalkL, List.mem_append]
+    constructor
+    · rintro (h | h)
+      · rcases h1.1 h with ⟨q, d, hd, hsrc, hc⟩
+        exact ⟨0, y, q, d, by simp, hd, hsrc, by simpa [List.append_assoc] using hc⟩
+      · rcases h2.1 h with ⟨j, x, q, d, hx, hd, hsrc, hc⟩
+        exact ⟨j + 1, x, q, d, by simpa using hx, hd, hsrc, by
+          have e : k + (j + 1) = k + 1 + j := by omega
+          rw [e]; exact hc⟩
+    · rintro ⟨j, x, q, d, hx, hd, hsrc, hc⟩
+      cases j with
+      | zero =>
+        left
+        simp at hx; subst hx
+        exact h1.2 ⟨q, d, hd, hsrc, by simpa [List.append_assoc] using hc⟩
+      | succ j =>
+        right
+        exact h2.2 ⟨j, x, q, d, by simpa using hx, hd, hsrc, by
+          have e : k + 1 + j = k + (j + 1) := by omega
+          rw [e]; exact hc⟩
+end
+
+theorem isDirectCall_store {t : Tree} {here : Path} {c : Call} (h : IsDirectCall t here c) :
+    ∃ q, c.store = here ++ q ∧ c.obj = here ++ q ∧ c.rel = [] := by
+  rcases h with ⟨q, d, _, _, hc⟩; exact ⟨q, by simp [hc], by simp [hc], by simp [hc]⟩
+
+mutual
+/-- … and calls each of them once -/
+theorem nodup_directWalk : ∀ (t : Tree) (here : Path), WFSub t → (directWalk t here).Nodup
+  | .node k id ids src cs, here, hw => by
+    have hkids : ∀ x ∈ cs, WFSub x := fun x hx => by
+      rcases List.getElem?_of_mem hx with ⟨j, hj⟩
+      exact hw.child (t := .node k id ids src cs) (by simpa [Tree.children] using hj)
+    have hL := nodup_directWalkL cs here 0 hkids
+    simp only [directWalk]
+    rw [List.nodup_append]
+    refine ⟨by split <;> simp, by split <;> simp [hL], ?_⟩
+    intro a ha b hb
+    by_cases hs : src = []
+    · simp [hs] at ha
+    · simp only [hs, ne_eq, not_false_eq_true, if_true, List.mem_singleton] at ha
+      by_cases hk : isNamespace k = true
+      · simp only [hk, if_true] at hb
+        rcases (mem_directWalkL cs here 0 b hkids).1 hb with ⟨j, x, q, d, _, _, _, hc⟩
+        intro hab
+        have : a.store = b.store := by rw [hab]
+        rw [ha, hc] at this
+        have := congrArg List.length this
+        simp at this
+      · simp [hk] at hb
+theorem nodup_directWalkL : ∀ (cs : List Tree) (here : Path) (k : Nat), (∀ x ∈ cs, WFSub x) →
+    (directWalkL cs here k).Nodup
+  | [], _, _, _ => by simp [directWalkL]
+  | y :: ys, here, k, hw => by
+    have hy : WFSub y := hw y (by simp)
+    have hys : ∀ x ∈ ys, WFSub x := fun x hx => hw x (by simp [hx])
+    simp only [directWalkL]
+    rw [List.nodup_append]
+    refine ⟨nodup_directWalk y (here ++ [k]) hy, nodup_directWalkL ys here (k + 1) hys, ?_⟩
+    intro a ha b hb hab
+    rcases isDirectCall_store ((mem_directWalk y (here ++ [k]) a hy).1 ha) with ⟨q, hq, _, _⟩
+    rcases (mem_directWalkL ys here (k + 1) b hys).1 hb with ⟨j, x, q', d, _, _, _, hc⟩
+    have : a.store = b.store := by rw [hab]
+    rw [hq, hc] at this
+    simp only [List.append_assoc, List.append_cancel_left_eq, List.singleton_append, List.cons.injEq] at this
+    omega
+end
+
+theorem mem_upCalls (obj : Path) : ∀ (p : Path) (t : Tree) (here : Path) (n : Tree) (c : Call), sub t p = some n →
+    (c ∈ upCalls obj t here p ↔ ∃ q r a, p = q ++ r ∧ r ≠ [] ∧ sub t q = some a ∧ a.source ≠ [] ∧
+      c = ⟨a.source, here ++ q, obj, optSegs a r⟩)
+  | [], t, here, n, c, _ => by
+    simp only [upCalls, List.not_mem_nil, false_iff]
+    rintro ⟨q, r, a, hp, hr, _⟩
+    have : r = [] := (List.append_eq_nil_iff.1 hp.symm).2
+    exact hr this
+  | i :: p, t, here, n, c, hn => by
+    cases hc : t.children[i]? with
+    | none => rw [sub_cons_none hc] at hn; cases hn
+    | some x =>
+      rw [sub_cons hc] at hn
+      have ih := mem_upCalls obj p x (here ++ [i]) n c hn
+      simp only [upCalls, hc, List.mem_append]
+      constructor
+      · rintro (h | h)
+        · rcases ih.1 h with ⟨q, r, a, hp, hr, ha, hs, hcc⟩
+          exact ⟨i :: q, r, a, by simp [hp], hr, by rw [sub_cons hc]; exact ha, hs, by simpa using hcc⟩
+        · by_cases hs : t.source = []
+          · simp [hs] at h
+          · simp only [hs, ne_eq, not_false_eq_true, if_true, List.mem_singleton] at h
+            exact ⟨[], i :: p, t, rfl, by simp, rfl, hs, by simpa using h⟩
+      · rintro ⟨q, r, a, hp, hr, ha, hs, hcc⟩
+        cases q with
+        | nil =>
+          simp [sub] at ha; subst ha
+          simp only [List.nil_append] at hp; subst hp
+          right; simp [hs, hcc]
+        | cons j q =>
+          simp only [List.cons_append, List.cons.injEq] at hp
+          obtain ⟨rfl, hp⟩ := hp
+          rw [sub_cons hc] at ha
+          left
+          exact ih.2 ⟨q, r, a, hp, hr, ha, hs, by simpa using hcc⟩
+
+theorem nodup_upCalls (obj : Path) : ∀ (p : Path) (t : Tree) (here : Path) (n : Tree), sub t p = some n →
+    (upCalls obj t here p).Nodup
+  | [], _, _, _, _ => by simp [upCalls]
+  | i :: p, t, here, n, hn => by
+    cases hc : t.children[i]? with
+    | none => rw [sub_cons_none hc] at hn; cases hn
+    | some x =>
+      rw [sub_cons hc] at hn
+      simp only [upCalls, hc]
+      rw [List.nodup_append]
+      refine ⟨nodup_upCalls obj p x (here ++ [i]) n hn, by split <;> simp, ?_⟩
+      intro a ha b hb hab
+      rcases (mem_upCalls obj p x (here ++ [i]) n a hn).1 ha with ⟨q, r, a', _, _, _, _, hca⟩
+      by_cases hs : t.source = []
+      · simp [hs] at hb
+      · simp only [hs, ne_eq, not_false_eq_true, if_true, List.mem_singleton] at hb
+        have : a.store = b.store := by rw [hab]
+        rw [hca, hb] at this
+        have := congrArg List.length this
+        simp at this
+
+/-- what `find_source()` finds: a sourced node on the way up, none nearer; its path = own segment, then the way down -/
+theorem nearestCall_some (obj : Path) : ∀ (p : Path) (par : Option (Tree × Nat)) (t : Tree) (here : Path) (n : Tree)
+    (c : Call), sub t p = some n → nearestCall obj par t here p = some c →
+    ∃ q r a s0, p = q ++ r ∧ sub t q = some a ∧ a.source ≠ [] ∧ c = ⟨a.source, here ++ q, obj, s0 :: optSegs a r⟩
+      ∧ (q = [] → s0 = segOf ⟨par, t, here⟩)
+      ∧ ∀ q2 r2 b, p = q2 ++ r2 → q.length < q2.length → sub t q2 = some b → b.source = []
+  | [], par, t, here, n, c, _, h => by
+    by_cases hs : t.source = []
+    · simp [nearestCall, hs] at h
+    · simp only [nearestCall, hs, ne_eq, not_false_eq_true, if_true, Option.some.injEq] at h
+      refine ⟨[], [], t, segOf ⟨par, t, here⟩, rfl, rfl, hs, by simp [← h, optSegs], fun _ => rfl, ?_⟩
+      intro q2 r2 b hp hl _
+      have : q2 = [] := (List.append_eq_nil_iff.1 hp.symm).1
+      subst this; simp at hl
+  | i :: p, par, t, here, n, c, hn, h => by
+    cases hc : t.children[i]? with
+    | none => rw [sub_cons_none hc] at hn; cases hn
+    | some x =>
+      rw [sub_cons hc] at hn
+      simp only [nearestCall, hc] at h
+      cases hnc : nearestCall obj (some (t, i)) x (here ++ [i]) p with
+      | some call =>
+        simp only [hnc, Option.some.injEq] at h; subst h
+        rcases nearestCall_some obj p (some (t, i)) x (here ++ [i]) n call hn hnc with ⟨q, r, a, s0, hp, ha, hs, hcc, _, hnear⟩
+        refine ⟨i :: q, r, a, s0, by simp [hp], by rw [sub_cons hc]; exact ha, hs, by simpa using hcc, by simp, ?_⟩
+        intro q2 r2 b hp2 hl hb
+        cases q2 with
+        | nil => simp at hl
+        | cons j q2 =>
+          simp only [List.cons_append, List.cons.injEq] at hp2
+          obtain ⟨rfl, hp2⟩ := hp2
+          rw [sub_cons hc] at hb
+          exact hnear q2 r2 b hp2 (by simpa using hl) hb
+      | none =>
+        simp only [hnc] at h
+        by_cases hs : t.source = []
+        · simp [hs] at h
+        · simp only [hs, ne_eq, not_false_eq_true, if_true, Option.some.injEq] at h
+          refine ⟨[], i :: p, t, segOf ⟨par, t, here⟩, rfl, rfl, hs, by simp [← h], fun _ => rfl, ?_⟩
+          intro q2 r2 b hp2 hl hb
+          cases q2 with
+          | nil => simp at hl
+          | cons j q2 =>
+            simp only [List.cons_append, List.cons.injEq] at hp2
+            obtain ⟨rfl, hp2⟩ := hp2
+            rw [sub_cons hc] at hb
+            exact nearestCall_none obj p (some (t, i)) x (here ++ [i]) n hn hnc q2 r2 b hp2 hb
+where
+  nearestCall_none (obj : Path) : ∀ (p : Path) (par : Option (Tree × Nat)) (t : Tree) (here : Path) (n : Tree),
+      sub t p = some n → nearestCall obj par t here p = none →
+      ∀ q r b, p = q ++ r → sub t q = some b → b.source = []
+    | [], par, t, here, n, _, h => by
+      intro q r b hp hb
+      have : q = [] := (List.append_eq_nil_iff.1 hp.symm).1
+      subst this
+      simp [sub] at hb; subst hb
+      by_cases hs : t.source = []
+      · exact hs
+      · simp [nearestCall, hs] at h
+    | i :: p, par, t, here, n, hn, h => by
+      cases hc : t.children[i]? with
+      | none => rw [sub_cons_none hc] at hn; cases hn
+      | some x =>
+        rw [sub_cons hc] at hn
+        simp only [nearestCall, hc] at h
+        cases hnc : nearestCall obj (some (t, i)) x (here ++ [i]) p with
+        | some call => simp [hnc] at h
+        | none =>
+          simp only [hnc] at h
+          intro q r b hp hb
+          cases q with
+          | nil =>
+            simp [sub] at hb; subst hb
+            by_cases hs : t.source = []
+            · exact hs
+            · simp [hs] at h
+          | cons j q =>
+            simp only [List.cons_append, List.cons.injEq] at hp
+            obtain ⟨rfl, hp⟩ := hp
+            rw [sub_cons hc] at hb
+            exact nearestCall_none obj p (some (t, i)) x (here ++ [i]) n hn hnc q r b hp hb
 
 end Basyx.Tree
